@@ -13,6 +13,8 @@ CHECKS = {
              ref="4.1", tech="symbolic execution of the whole pipeline (Lexer + Registry.run + all rules) on program text with symbolic slots (symx + z3)"),
  "C13": dict(text="Regex level: the header pattern read from the current source is translated to a z3 regular expression; 'every stdheader instance (all field values, 80-column lines) is accepted' and 'each listed single mutation is rejected' are unsat queries of z3's sequence theory. State-machine level: the real CheckHeader through the real pipeline on instances and structural mutants (INVALID_HEADER count 0 / exactly 1).",
              ref="4.13", tech="z3 string/regex theory queries over symbolic header fields + symx exploration of the header state machine; sat answers replayed on the real tool"),
+ "C14": dict(text="Header base name symbolic (every character); expected guard symbol from an independent z3-defined oracle; accepted shape and guard mutations g1..g8 through the real pipeline, under .h and .c names: the matching HEADER_PROT_* diagnostic is present / absent on every path class.",
+             ref="4.14", tech="symbolic execution of the pipeline with a symbolic file name and guard symbol (symx + z3), independent upper/dot oracle"),
  "C17": dict(text="Partition argument over comment/string/char contents: for each program the contents of up to 3-4 comment and literal slots are symbolic over the code-like alphabet; the real pipeline's outcome (verdict, codes, lines, columns) must be identical on every explored path class.",
              ref="4.17", tech="symbolic execution of the whole pipeline with symbolic comment/literal contents; relational claim by path partition (symx + z3)"),
  "C18": dict(text="Partition argument over identifier spellings: every user identifier of a program is symbolic (consistent at all occurrences, class and length kept, keywords excluded by solver constraints); the outcome must be identical on every path class.",
